@@ -468,15 +468,25 @@ def run_meta(c, tier):
                 for v in range(nw):
                     if v != w and own_hills[v]:
                         probes.append(rng.choice(own_hills[v][:max(1, len(own_hills[v]) - 6)])[0])
+                # beyond the grid the bias is the analytic sum of the hills near the boundary, the peers' like the walker's own
+                probes += [HI + 0.25, LO - 0.375]
                 for xp in probes:
                     ev = walkers[w].send(ctl.pos_line(d2=xp) + "\nevalc\n")
                     e = [q for q in ev if q["ev"] == "evalc"][0]
                     oe = fl(e["bias"]["mtd"]["e"])
                     xc = LO + (math.floor((xp - LO) / 0.5) + 0.5) * 0.5
                     lo = hi = 0.0
+                    offgrid = not (LO <= xp < HI)
                     for v in range(nw):
                         for hcw, st_ in zip(own_hills[v], own_steps[v]):
                             tc, fc = g(hcw, xc)
+                            if offgrid:
+                                # (hills more than 3 hill widths from the boundary are left out by the library: < 1e-10 here)
+                                tp, fp = g(hcw, xp)      # (a hill is cut off beyond 23 in the exponent's argument, as on the grid)
+                                hi += fp
+                                if v == w or st_ <= last[v] - 2 * freq - 2:
+                                    lo += tp
+                                continue
                             if v == w:
                                 lo += tc
                                 hi += fc
@@ -485,8 +495,8 @@ def run_meta(c, tier):
                                 hi += max(fc, fp)
                                 if st_ <= last[v] - 2 * freq - 2:
                                     lo += min(tc, tp)
-                    if not (lo - 1e-10 <= oe <= hi + 1e-10):
-                        c.violation("union_bias:" + key + (":too_small" if oe < lo else ":too_large"),
+                    if not (lo - (1e-8 if offgrid else 1e-10) <= oe <= hi + (1e-8 if offgrid else 1e-10)):
+                        c.violation("union_bias:" + key + (":off_grid" if offgrid else "") + (":too_small" if oe < lo else ":too_large"),
                                     "walker %d probe x=%s: bias %.15g, hill sum over the union in [%.15g, %.15g]; own steps %s; announced %s" % (
                                         w, xp, oe, lo, hi, own_steps, [sorted(r) for r in received]), files)
                         ok = False
